@@ -15,7 +15,8 @@ EXTENDS TaDim, TLC, Json
 
 CONSTANTS Sched,     \* <<[pat |-> <<input records>>, reps |-> Nat], ...>>
           Kind, P,   \* the indicator under the stream
-          Samples    \* the steps at which the expectation is stated
+          Samples,   \* the steps at which the expectation is stated
+          ResetAt    \* reset() is called after this many inputs (0: never); later windows start there
 
 \* The schedule is copied into a variable once (Init): TLC re-evaluates an overridden constant at every reference,
 \* which made a period-1000 window cost minutes.
@@ -37,7 +38,9 @@ SAt(j, r) == LET g == sched[j] IN
 StreamAt(t) == SAt(1, t)
 
 IMin2(a, b) == IF a < b THEN a ELSE b
-WindowAt(t, n) == LET k == IMin2(n, t) IN [i \in 1..k |-> StreamAt(t - k + i)]
+\* the window at step t: the last n inputs, but nothing from before a reset
+SinceReset(t) == IF ResetAt > 0 /\ t > ResetAt THEN t - ResetAt ELSE t
+WindowAt(t, n) == LET k == IMin2(n, SinceReset(t)) IN [i \in 1..k |-> StreamAt(t - k + i)]
 
 \* largest single-bar (3 x) money flow anywhere in the schedule: an upper bound of "since reset" (MFI conditioning)
 PatFlow(g) == FoldLeft(LAMBDA a, in : IMax(a, IF in.ty = "b" THEN Abs(Tp3(in) * in.v) ELSE 0), 0, g.pat)
@@ -57,7 +60,7 @@ Expect(t) ==
     LET win == WindowAt(t, Memory(Kind, P))
         pre == SubSeq(win, 1, Len(win) - 1)
         r == RefStep(Kind, P, StateOf(pre), win[Len(win)])
-    IN [t |-> t, taint |-> FALSE, f |-> r.f, den |-> r.den, dend |-> r.dend, deg |-> r.deg, lo |-> r.lo, hi |-> r.hi,
+    IN [t |-> SinceReset(t), at |-> t, taint |-> FALSE, f |-> r.f, den |-> r.den, dend |-> r.dend, deg |-> r.deg, lo |-> r.lo, hi |-> r.hi,
         ts |-> r.ts, e |-> Eff(Kind, win[Len(win)]),
         in |-> win[Len(win)]]          \* the input itself, so that the harness's expansion of the schedule is checked too
 
